@@ -113,25 +113,32 @@ def q2(chk, repo):
         chk.require(ok, "C06-Q2", f"{am.relpath}:Array.__post_init__", "self.records_per_chunk = normalize_chunksize(self.records_per_chunk, self.shape[0])",
                     f"the stored chunk size is {short(st, 80)}: it must depend on both the option and the number of lines", key="post_init:normalize")
     # exposure without arithmetic
-    ch = am.func("Array.chunks")
-    r = [n for n in ch.own_nodes() if isinstance(n, ast.Return)]
-    ok = len(r) == 1 and norm(r[0].value) in ("(self.records_per_chunk, *self.shape[1:])", "(self.records_per_chunk,) + tuple(self.shape[1:])", "(self.records_per_chunk,) + self.shape[1:]")
-    chk.require(ok, "C06-Q2", f"{am.relpath}:Array.chunks", "chunks = (records_per_chunk, *shape[1:])", f"chunks = {short(r[0].value, 60) if r else None}", key="Array.chunks")
+    from .common_rules import spec_compare
+    spec_compare(chk, "C06-Q2", am.func("Array.chunks"), "def chunks(self):\n    return (self.records_per_chunk, *self.shape[1:])",
+                 "chunks = (records_per_chunk, *shape[1:])", "Array.chunks no longer exposes the stored chunk size unchanged", "Array.chunks")
     hm = repo.module("ceos_alos2.hierarchy")
-    vc = hm.func("Variable.chunks")
-    rr = [n for n in vc.own_nodes() if isinstance(n, ast.Return)]
-    ok = any(norm(x.value) == "dict(zip(self.dims, self.data.chunks))" for x in rr)
-    chk.require(ok, "C06-Q2", f"{hm.relpath}:Variable.chunks", "Variable.chunks zips dims with the Array's chunks", "Variable.chunks no longer pairs dims with Array.chunks", key="Variable.chunks")
+    spec_compare(chk, "C06-Q2", hm.func("Variable.chunks"),
+                 "def chunks(self):\n    if not isinstance(self.data, Array):\n        return {}\n    return dict(zip(self.dims, self.data.chunks))",
+                 "Variable.chunks zips dims with the Array's chunks", "Variable.chunks no longer pairs dims with Array.chunks", "Variable.chunks")
     xm = repo.module("ceos_alos2.xarray")
     ee = xm.func("extract_encoding")
-    arith = [n for n in ee.own_nodes() if isinstance(n, (ast.BinOp, ast.AugAssign)) ]
+    arith = [n for n in ee.own_nodes() if isinstance(n, (ast.BinOp, ast.AugAssign))]
     key_ok = any(isinstance(n, ast.Dict) and "preferred_chunksizes" in [const_str(k) for k in n.keys] for n in ee.own_nodes())
     src_ok = any(isinstance(n, ast.Attribute) and n.attr == "chunks" and norm(n.value) == ee.positional_params[0] for n in ee.own_nodes())
-    chk.require(not arith and key_ok and src_ok, "C06-Q2", f"{xm.relpath}:extract_encoding", "preferred_chunksizes is var.chunks copied without arithmetic",
-                f"extract_encoding alters the chunk sizes ({[short(a, 30) for a in arith]}) or lost the preferred_chunksizes key", key="extract_encoding")
+    if not key_ok or not src_ok:
+        raise AnalysisError(f"{xm.relpath}:extract_encoding: no preferred_chunksizes built from var.chunks; not decided")
+    chk.require(not arith, "C06-Q2", f"{xm.relpath}:extract_encoding", "preferred_chunksizes is var.chunks copied without arithmetic",
+                f"extract_encoding alters the chunk sizes ({[short(a, 30) for a in arith]})", key="extract_encoding")
     tv = xm.func("to_variable")
     ok = any(isinstance(c, ast.Call) and any(k.arg == "encoding" and "extract_encoding" in norm(k.value) for k in c.keywords) for c in calls_in(tv))
-    chk.require(ok, "C06-Q2", f"{xm.relpath}:to_variable", "the encoding of every variable comes from extract_encoding(var)", "to_variable no longer attaches extract_encoding(var)", key="to_variable:encoding")
+    if not ok:
+        from ..callgraph import CallGraph
+        if f"{xm.name}:extract_encoding" not in CallGraph(repo).edges.get(tv.key, ()):
+            chk.fail("C06-Q2", f"{xm.relpath}:to_variable", "to_variable no longer attaches extract_encoding(var): the advertised chunk size is lost", key="to_variable:encoding")
+        else:
+            raise AnalysisError(f"{xm.relpath}:to_variable: extract_encoding is used but not as the `encoding=` argument; not decided")
+    else:
+        chk.ok("C06-Q2", f"{xm.relpath}:to_variable", "the encoding of every variable comes from extract_encoding(var)")
 
 
 def _eval_min_aware(paths, val):
